@@ -116,6 +116,30 @@ def check(ctx):
                 rep.proved("R-C33-validator", f"{rel}:{name} returns", "returns the unmodified input tape on every exit")
     rep.floor("validator transforms", n_val, 9)
 
+    # ---- R-C33-config: every configuration parameter of a device-layer transform is consumed ------------
+    rep.rule("R-C33-config", "every parameter of a device-layer preprocessing transform is read by its body (a device passes e.g. allow_resets / "
+             "stopping_condition / name to configure what is rejected or rewritten; a parameter that is accepted and ignored silently drops that policy)")
+    n_par = 0
+    for rel in VALIDATOR_FILES:
+        m = ix.by_relpath.get(rel)
+        if m is None:
+            continue
+        for name, f in sorted(m.functions.items()):
+            if not _is_transform(f):
+                continue
+            a = f.node.args
+            ps = [x.arg for x in a.posonlyargs + a.args + a.kwonlyargs][1:]
+            used = {n.id for n in ast.walk(f.node) if isinstance(n, ast.Name) and isinstance(n.ctx, ast.Load)}
+            for pn in ps:
+                n_par += 1
+                if pn in used or pn.startswith("_"):
+                    rep.proved("R-C33-config", f"{rel}:{name}({pn})", "read in the body", nontrivial=False)
+                else:
+                    rep.refuted("R-C33-config", rel, name, f"parameter `{pn}` of {name}",
+                                f"`{name}` accepts `{pn}` but never reads it: the device's configuration (e.g. which resets / gates / measurements are "
+                                "allowed) is silently ignored and circuits it should reject or rewrite differently pass through", line=f.node.lineno)
+    rep.floor("configuration parameters of device-layer transforms", n_par, 25)
+
     # ---- pipelines -------------------------------------------------------------------------------
     for (rel, cname, meth), required in sorted(PIPELINES.items()):
         cls = ix.cls(rel, cname)
